@@ -510,6 +510,8 @@ impl Store {
 
         // If this is a context frame, remove it from the contexts set
         if frame.topic == "xs.context" {
+            #[cfg(feature = "verif")]
+            self.verif.point("ctx.unregister", Some(&frame));
             self.contexts.write().unwrap().remove(&frame.id);
         }
 
